@@ -59,6 +59,8 @@ func (c *copier) loc(l Loc) Loc {
 		return n
 	case BytePtr:
 		return BytePtr{obj: c.loc(x.obj).(*ByteObj), idx: x.idx}
+	case ByteView:
+		return ByteView{obj: c.loc(x.obj).(*ByteObj), off: x.off, n: x.n}
 	}
 	panic("copier: unknown loc")
 }
@@ -67,7 +69,7 @@ func (c *copier) val(v Value) Value {
 	switch x := v.(type) {
 	case nil, *Term, FloatV, StrV, BArrV, BuiltinV, *Opaque, *opaqueMethod:
 		return v
-	case NilLoc, *Cell, *StructLoc, *ArrayLoc, *ByteObj, BytePtr:
+	case NilLoc, *Cell, *StructLoc, *ArrayLoc, *ByteObj, BytePtr, ByteView:
 		return c.loc(x)
 	case BSlice:
 		if x.obj == nil {
